@@ -419,3 +419,44 @@ example : Weak (run {} ({}, [1, 2, 3]) [.arrive T12, .arrive { id := 5, ins := [
   unfold Weak; decide
 
 end Saito.C14
+
+/-! ### a refused transaction reserves nothing -/
+namespace Saito.C14
+open Saito.Pool
+
+/-- a transaction that is not admitted (rejected, conflicting with a pooled one in ANY of its value-carrying inputs, or a
+    duplicate) leaves the pool — its transactions and every reservation — exactly as it was, for every flag vector -/
+theorem refused_arrival_changes_nothing (fl : Flags) (u : List Nat) (p : Pool) (t : Tx)
+    (h : (arrive fl u p t).2 = .rejected ∨ (arrive fl u p t).2 = .conflict ∨ (arrive fl u p t).2 = .dup) :
+    (arrive fl u p t).1 = p := by
+  unfold arrive at h ⊢
+  split
+  · rfl
+  · split
+    · rfl
+    · split
+      · rfl
+      · unfold addTx at h ⊢
+        split
+        · rfl
+        · split
+          · rfl
+          · exfalso
+            rename_i h1 h2 h3 h4 h5
+            simp only [h1, h2, h3, h4, h5, Bool.false_eq_true, if_false] at h
+            split at h <;> simp at h
+
+/-- hence an output that was free before a refused arrival is free after it: the free input of a transaction refused for ANOTHER
+    input of it can still be spent by a later transaction -/
+theorem refused_arrival_keeps_free_outputs_free (fl : Flags) (u : List Nat) (p : Pool) (t : Tx) (k : Nat)
+    (h : (arrive fl u p t).2 = .conflict) (hk : k ∉ p.resv) : k ∉ (arrive fl u p t).1.resv := by
+  rw [refused_arrival_changes_nothing fl u p t (Or.inr (Or.inl h))]; exact hk
+
+/-- non-vacuity: a pooled transaction spends output 2; a second one spends the free output 1 and output 2: refused, 1 stays free -/
+example :
+    let t1 : Tx := { id := 1, typ := .normal, ins := [(2, true)], ok := true, work := 0 }
+    let t2 : Tx := { id := 2, typ := .normal, ins := [(1, true), (2, true)], ok := true, work := 0 }
+    let p := (arrive Flags.fixed [1, 2] {} t1).1
+    (arrive Flags.fixed [1, 2] p t2).2 = .conflict ∧ 1 ∉ (arrive Flags.fixed [1, 2] p t2).1.resv := by decide
+
+end Saito.C14
